@@ -960,6 +960,10 @@ def make_logging_undefined(
             _log_message(self)
             return super().__iter__()  # type: ignore
 
+        def __aiter__(self) -> t.AsyncIterator[t.Any]:
+            _log_message(self)
+            return super().__aiter__()  # type: ignore
+
         def __bool__(self) -> bool:
             _log_message(self)
             return super().__bool__()  # type: ignore
@@ -1057,6 +1061,6 @@ class StrictUndefined(Undefined):
     """
 
     __slots__ = ()
-    __iter__ = __str__ = __len__ = Undefined._fail_with_undefined_error
+    __iter__ = __aiter__ = __str__ = __len__ = Undefined._fail_with_undefined_error
     __eq__ = __ne__ = __bool__ = __hash__ = Undefined._fail_with_undefined_error
     __contains__ = Undefined._fail_with_undefined_error
